@@ -1,6 +1,6 @@
 //! Instrumented user functions ("probes") and helpers to build and run rulesets.
 
-use crate::model::eval::{arg_key, probe_error_message, probe_result, FnSpec};
+use crate::model::eval::{arg_key, probe_error, probe_result, FnSpec};
 use async_trait::async_trait;
 use reval::prelude::*;
 use std::collections::{BTreeMap, HashSet};
@@ -70,7 +70,7 @@ impl UserFunction for Probe {
             Suspend(self.suspend).await;
         }
         if self.spec.fail_on.contains(&key.1) || n <= self.spec.fail_first {
-            return Err(anyhow::anyhow!(probe_error_message(self.name, &key.1)));
+            return Err(probe_error(self.name, &key.1));
         }
         Ok(probe_result(self.name, &param))
     }
